@@ -16,6 +16,8 @@
 // fails in the same script, otherwise a `broken-correspondence`.
 //
 //	searchx -tier quick|thorough -seed N -driver …/drv_searchreal -out r.json [-workers W] [-budget nodes]
+//	searchx -suite spsa …   the same tie for the spsa build over in-range parameter vectors (spsa.go;
+//	                        binary built with `bin/build-harness searchx /repo -tags "verif spsa"`)
 package main
 
 import (
@@ -54,6 +56,7 @@ var (
 	verbose    = flag.Bool("v", false, "print progress to stderr")
 	only       = flag.String("only", "", "run only scripts whose kind has this prefix (diagnostic)")
 	saneStrict = flag.Bool("nmpsane-strict", false, "report every script on which NmpSane fails as a mismatch (broken-correspondence); by default failures are counted in the histogram and the first ones are listed in the notes, because NmpSane does fail on the unchanged engine (forced-mate roots from depth 3 on)")
+	suite      = flag.String("suite", "", "\"\" = the tie of the default build (result searchx); spsa = the tie of the spsa build over in-range parameter vectors (result searchx/spsa; needs a binary built with -tags \"verif spsa\", see spsa.go)")
 	saneOf     = flag.Int("nmpsane", 0, "measure NmpSane (guarded null-move record gives the identical result) on every n-th script besides the mate-band scripts, which are always measured (0 = tier default: 3 quick, 2 thorough; 1 = all; -1 = none)")
 )
 
@@ -1509,6 +1512,15 @@ func (e *env) countStep(sc *script, i int) {
 func main() {
 	c := common.Parse()
 	e := &env{c: c, seen: map[string]bool{}}
+	switch *suite {
+	case "":
+	case "spsa":
+		e.spsaMain()
+		return
+	default:
+		fmt.Fprintln(os.Stderr, "searchx: unknown suite", *suite)
+		os.Exit(2)
+	}
 	e.r = common.NewResult(c, "searchx", "C06", "C07", "C08")
 	e.r.Rule = "a search (root + played history, limits, engine history on one instance) that visited at least 100 nodes and whose score, move, ponder, Nodes, ABNodes, every info line (depth, score, nodes, hashfull, pv) and state digest (all TT buckets, all history cells, generation) were compared between search.Go and Search.go (realComp)"
 	if c.Driver == "" {
